@@ -77,9 +77,12 @@ def validate_parallel(c, events, k=4):
         for rej in r['rejects']:
             ev = sub[rej['line'] - 1]
             mol = mol_of[lo + rej['line'] - 1]
-            key = '%s|dove=%s|%s' % (rej['clause'], ev.get('dove'), shape(mol))
-            what = '%s: get_consensus(dove_safe=%s) order=%s returned %s' % (
-                rej['clause'], ev.get('dove'), ev.get('order'), json.dumps(ev.get('consensus', ev.get('raised')))[:200])
+            key = '%s|dove=%s|%s|%s|%s' % (rej['clause'], ev.get('dove'), ev.get('path'),
+                                           'requeried_object' if ev.get('requeried') else 'first_query', shape(mol))
+            what = '%s: get_consensus(dove_safe=%s%s) after adding %s (%s) returned %s' % (
+                rej['clause'], ev.get('dove'), ', with_probs_and_obs=True' if ev.get('path') == 'probs' else '', ev.get('order'),
+                'same object queried before' if ev.get('requeried') else 'first query on a fresh molecule',
+                json.dumps(ev.get('consensus', ev.get('raised')))[:200])
             c.violation(key, what, {'event': ev, 'mol': mol, 'clause': rej['clause'], 'line': lo + rej['line']})
         n_rejects += len(r['rejects'])
         for n in r['notes']:
@@ -127,7 +130,13 @@ def run(tier):
             return evs
 
         def mut_drop(evs):
-            evs[2]['consensus'] = evs[2]['consensus'][1:]
+            e = next(x for x in evs if x.get('kind') == 'perm' and x.get('consensus'))
+            e['consensus'] = e['consensus'][1:]
+            return evs
+
+        def mut_probs(evs):   # the with_probs_and_obs shape is judged too
+            e = next(x for x in evs if x.get('path') == 'probs' and x.get('kind') == 'alt' and x.get('consensus'))
+            e['consensus'][-1]['b'] = 'T' if e['consensus'][-1]['b'] != 'T' else 'A'
             return evs
 
         def mut_read(evs):   # corrupt an input instead of an output: the recorded reads no longer explain the result
@@ -139,12 +148,13 @@ def run(tier):
         vlib.corrupt_selftest(c, 'Trace_Consensus', good, mut_base, 'flip_one_base', cfg=cfgp)
         vlib.corrupt_selftest(c, 'Trace_Consensus', good, mut_drop, 'drop_one_position_in_permuted_run', cfg=cfgp)
         vlib.corrupt_selftest(c, 'Trace_Consensus', good, mut_read, 'shift_recorded_reads', cfg=cfgp)
+        vlib.corrupt_selftest(c, 'Trace_Consensus', good, mut_probs, 'flip_base_in_with_probs_result', cfg=cfgp)
     c.assumptions += ['fragments handed to Molecule.add_fragment as [R1, R2] / [R1, None] lists (what MoleculeIterator builds); '
                       'one-element read lists and R2-only fragments are recorded as observations only',
                       'an N call and a quality tie between disagreeing mates contribute no vote (DESIGN 3.13)']
     mols = [e for e in events if e['ev'] == 'mol']
-    return c.finish(rule='one trace = one execution of Molecule.get_consensus on a freshly built molecule (one insertion order, one '
-                         'dove_safe setting); inputs: every fragment of the TLC model universe alone, random combinations of them, '
+    return c.finish(rule='one trace = one call of Molecule.get_consensus (plain or with_probs_and_obs=True; on a freshly built molecule, or '
+                         'on the same object after every further add_fragment; one insertion order, one dove_safe setting); inputs: every fragment of the TLC model universe alone, random combinations of them, '
                          'random realistic molecules in all/many insertion orders and doubled',
                     extra_cov={'distinct_nontrivial': len(set(json.dumps(m['frags'], sort_keys=True) for m in mols)),
                                'molecules': len(mols), 'tlc_generated_fragments': len(g['scenarios'])})
